@@ -10,3 +10,4 @@ pub mod util;
 
 #[global_allocator]
 static GLOBAL: alloc_count::Counting = alloc_count::Counting;
+pub mod fuzzglue;
